@@ -191,7 +191,7 @@ class Site:
             fp.write(CANARY + b" cwd a\n")
         os.chdir(cwd)
         self.cwd = cwd
-        self.audit = {"on": False, "spawn": 0, "imp": 0, "relopen": 0, "seen": []}
+        self.audit = {"on": False, "spawn": 0, "imp": 0, "relopen": 0, "relother": 0, "seen": [], "realonly_paths": set()}
         sys.addaudithook(self._hook)
         self.hook_calls = 0
 
@@ -218,7 +218,9 @@ class Site:
             if isinstance(p, bytes):
                 p = os.fsdecode(p)
             if isinstance(p, str) and p and not p.startswith("/"):
-                a["relopen"] += 1
+                # a real file looked for under the name of a mailbox/script/PYG member -> relopen; any other
+                # relative path (ZIPHandler's is_zipfile() probe of a member called *.zip) -> relother (design level)
+                a["relopen" if p in a["realonly_paths"] else "relother"] += 1
                 a["seen"].append("open " + p)
 
     def use(self, w):
@@ -301,7 +303,7 @@ class Site:
         s = ("/" + self.loc if self.loc else "") + "/" + top + ("/" + real_path(sel, names) if sel else "")
         data, tls = wire(proto, s)
         a = self.audit
-        a.update(spawn=0, imp=0, relopen=0, seen=[])
+        a.update(spawn=0, imp=0, relopen=0, relother=0, seen=[])
         a["on"] = audit
         try:
             r = w.request(data, tls=tls)
@@ -456,6 +458,7 @@ def _run_case(job):
     site = _SITE
     hook0 = site.hook_calls
     site.build(ms, prune, names, loc)
+    site.audit["realonly_paths"] = {real_path(m["p"], names) for m in ms if m["tag"] in ("mbox", "exec", "pyg")}
     traces = [{"id": "%s#extract" % cid, "init": {"members": ms}, "events": [site.extract_event(ms, names)],
                "case": {"members": [mname(m) for m in ms], "ms": ms, "names": names, "loc": loc, "sel": "#extract", "prune": prune},
                "extras": []}]
@@ -481,7 +484,8 @@ def _run_case(job):
                 events.append({"ev": "req", "sel": list(s), "args": sr["args"], "p": p, "mode": mode,
                                "pk": sr["zf"] if mode == "fresh" else sr["zc"],
                                "z": z, "tf": tf[(s, p)][0], "tp": tp[(s, p)][0],
-                               "spawn": aud["spawn"], "imp": aud["imp"], "relopen": aud["relopen"]})
+                               "spawn": aud["spawn"], "imp": aud["imp"], "relopen": aud["relopen"],
+                               "relother": aud["relother"]})
                 extras.append({"zip": zx, "twin_full": tf[(s, p)][1], "twin_plain": tp[(s, p)][1]})
         traces.append({"id": "%s#%s" % (cid, "/".join(s)), "init": {"members": ms}, "events": events,
                        "case": {"members": [mname(m) for m in ms], "ms": ms, "names": names, "loc": loc, "sel": "/" + "/".join(s),
@@ -670,6 +674,9 @@ def selftest():
     bad4 = json.loads(json.dumps(good[1]))
     bad4["id"] = "spawned"
     bad4["events"][0]["spawn"] = 1
+    for tr_ in good:
+        for e_ in tr_["events"]:
+            e_.setdefault("relother", 0)
     tv = tlc.validate_traces("TraceC16", "TraceC16.cfg", good + [bad1, bad2, bad3, bad4])
     got = {r["trace"]["id"]: r["clause"] for r in tv["rejected"]}
     print("accepted", tv["accepted"], "rejected", got)
